@@ -171,9 +171,13 @@ def eval_probe(ctx, case):
 
 
 def eval_gen(ctx, case):
-    r = core.run([ctx.harness, "gen", str(case["seed"]), str(case["histories"])], cwd=ctx.root, env=core.scratch_env(), timeout=1800)
+    # the driver is bounded in CPU time (a batch of histories needs a few seconds): an API call that never returns ends the process with a signal
+    r = core.run([ctx.harness, "gen", str(case["seed"]), str(case["histories"])], cwd=ctx.root, env=core.scratch_env(), timeout=1800, cpu_limit=90)
     if r.timed_out:
         return Verdict.inconclusive("watchdog")
+    if r.cpu_killed or (r.exit is not None and r.exit < 0):
+        return Verdict.violated("an allocator / registry call did not return: the driver was killed after 90 CPU-seconds (exit %s); last operations logged: %s" % (
+            r.exit, (r.err or r.out)[-400:].replace("\n", " | ")), r.brief())
     if r.exit != 0:
         return Verdict.violated("allocator driver died (exit %s)" % r.exit, r.brief())
     s = json.loads(r.out.strip().splitlines()[-1])
